@@ -1,10 +1,10 @@
 UNIT = dict(
     id="c18_truncate_block",
     prelude=["floats.rs"],
-    canary_use="broadcast use fl; ax_obeys();",
+    canary_use="broadcast use fl; ax_obeys(); ax_refref_cmp();",
     assumptions=[
         "uninterpreted float mode: + - * / < are deterministic functions of their operands, nothing else assumed",
-        "R6: the statement `let total: f64 = strat.iter().filter(|p| p > &&thresh).sum();` is abstracted (Filter/sum chains are outside this Verus); its value T is arbitrary here. That T is the sum of the entries above the threshold is checked only at the bounded level by Kani harness c18_truncate_valid/zeroed",
+        "R6: the statement `let total: f64 = strat.iter().filter(|p| p > &&thresh).sum();` is abstracted (Filter/sum chains are outside this Verus); its value T is arbitrary here, but the predicate handed to `.filter` is extracted as its own unit and must be `p > thresh`. That T is the sum of the entries above the threshold is checked only at the bounded level by Kani harness c18_truncate_valid/zeroed",
         "BLOCK: this unit covers the body of the per-infoset loop of truncate; that the loop visits each infoset's block exactly once is the SplitsByMut::next partition contract (unit split_by) plus the zip over the two players (read, not proved)",
     ],
     items=[
@@ -15,7 +15,7 @@ pub fn __abs_total(strat: &[f64], thresh: f64) -> (r: f64) { unimplemented!() }"
              as_fn="truncate__per_infoset", params="strat: &mut [f64], thresh: f64",
              obligation="C18.V.truncate.rescale",
              table=[
-                 (r"^let total: f64 = strat\.iter\(\)\.filter\(\|p\| p > &&thresh\)\.sum\(\);$", ("abstract", "let total: f64 = __abs_total(strat, thresh);")),
+                 (r"^let total: f64 = strat\.iter\(\)\.filter\(\|p\| [^|;]*\)\.sum\(\);$", ("abstract", "let total: f64 = __abs_total(strat, thresh);")),
                  (r"^if total > 0\.0 \{", "keep"),
              ],
              contract="""ensures
@@ -47,5 +47,20 @@ ensures
         (if fgt(s0[i], thresh) { fdiv(s0[i], total) } else { 0.0f64 }),""",
                             body_start="broadcast use fl;\nproof { ax_obeys(); }")},
         ),
+        # the predicate that selects what enters the total (expression closure handed to `.filter`): it
+        # must be the SAME test the rewrite applies, `p > thresh`
+        dict(raw="""// core: PartialOrd for &A delegates to A (twice for `&&f64 > &&f64`)
+pub axiom fn ax_refref_cmp()
+    ensures <&&f64 as PartialOrdSpec<&&f64>>::obeys_partial_cmp_spec(),
+        forall|a: &&f64, b: &&f64| #[trigger] <&&f64 as PartialOrdSpec<&&f64>>::partial_cmp_spec(&a, &b) == fcmp(**a, **b);
+"""),
+        dict(file="src/lib.rs", path="impl Strategies / fn truncate", closure=0, expr_closure=True,
+             header_re=r"^\|p\|$", as_fn="truncate__survivor_predicate",
+             params="p: &&f64, thresh: f64", ret="out", ret_type="bool",
+             obligation="C18.V.truncate.total_over_survivors", rules=[],
+             entry="broadcast use fl;\nproof { ax_obeys(); ax_refref_cmp(); }",
+             contract="""ensures
+    // the total that survivors are divided by is taken over exactly the entries that survive
+    out == fgt(**p, thresh), // @ob C18.V.truncate.total_over_survivors"""),
     ],
 )
